@@ -39,7 +39,7 @@ def gen_schema(rng):
     s = Schema()
     s.feat = {"nullfield": rng.random() < 0.12, "nulltag": rng.random() < 0.15, "exotic": rng.random() < 0.2,
               "strfield": rng.random() < 0.2, "nan": rng.random() < 0.04, "edge": rng.random() < 0.2,
-              "short": rng.random() < 0.06}
+              "short": rng.random() < 0.06, "seriesnull": rng.random() < 0.2}
     s.index_mode = rng.random() < 0.06
     if s.index_mode:
         s.feat["exotic"] = False      # index-mode measures cannot store array tags (C01's area), keep them out of C15
@@ -145,6 +145,10 @@ def gen_dataset(rng, idx):
         tss += [BASE_MS - DAY_MS + 5, BASE_MS + DAY_MS, BASE_MS + DAY_MS + 7]
     ver = 1
     used = set()
+    null_field = rng.randrange(len(s.fields))
+    non_entity = [t for t in s.tag_type if t not in s.entity]
+    null_tag = rng.choice(non_entity) if non_entity else None
+    null_what = "field" if (null_tag is None or rng.random() < 0.7) else "tag"
     for b in range(nb):
         pts = []
         for _ in range(rng.choice([1, 2, 4, 8, 12])):
@@ -171,11 +175,23 @@ def gen_dataset(rng, idx):
                     row = row[:rng.randrange(keep, len(row) + 1)]     # trailing non-entity tags omitted -> null
                 fams.append(row)
             fields = [gen_field_value(rng, f["t"], mode, 0.15 if s.feat["nullfield"] else 0.0, s.feat["nan"]) for f in s.fields]
+            if s.feat["seriesnull"] and si == 0:
+                # every point of this series lacks one field (or one tag): an all-null column on the node that holds it
+                if null_what == "field":
+                    fields[null_field] = "N"
+                else:
+                    for fi2, f2 in enumerate(s.families):
+                        for ti2, t2 in enumerate(f2["tags"]):
+                            if t2["n"] == null_tag and ti2 < len(fams[fi2]):
+                                fams[fi2][ti2] = "N"
             if s.feat["short"] and rng.random() < 0.3:
                 fields = fields[:rng.randrange(len(fields) + 1)]
             pts.append({"ts": ts, "ver": v, "tags": fams, "fields": fields})
         batches.append(pts)
-    ds = {"id": "d%d" % idx, "indexMode": s.index_mode, "shards": s.shards, "nodes": rng.choice([1, 2, 2, 3]),
+    if s.feat["seriesnull"]:
+        s.shards = max(s.shards, 2)
+    ds = {"id": "d%d" % idx, "indexMode": s.index_mode, "shards": s.shards,
+          "nodes": rng.choice([2, 2, 3]) if s.feat["seriesnull"] else rng.choice([1, 2, 2, 3]),
           "flush": rng.random() < 0.15, "batch": rng.choice([1, 2, 3, 4, 8, 1024]),
           "families": s.families, "entity": s.entity, "fields": s.fields, "rules": s.rules, "batches": batches}
     s.pool = pool
@@ -469,20 +485,27 @@ def gen_request_valid(rng, s):
             rq["crit"] = c
     r = rng.random()
     sortable = [x for x in s.rules if not x["nosort"]]
-    if r < 0.5:
+    by_entity = gb_tags is not None and gb_tags == list(s.entity)
+    if by_entity and r < 0.6:
+        # group_by == entity is executed over a series-ordered scan whatever the explicit order_by says
+        rq["ob"] = {"rule": "", "sort": rng.choice(["asc", "desc", "desc"])}
+    elif r < 0.5:
         pass
     elif r < 0.78 or not sortable:
         rq["ob"] = {"rule": "", "sort": rng.choice(["asc", "desc", ""])}
     else:
         rq["ob"] = {"rule": rng.choice(sortable)["n"], "sort": rng.choice(["asc", "desc", ""])}
     r = rng.random()
-    if r < 0.5:
+    if by_entity and r < 0.6:
+        rq["limit"] = rng.choice([1, 1, 2, 3])
+        rq["offset"] = rng.choice([0, 0, 1, 2])
+    elif r < 0.5:
         pass
     elif r < 0.92:
         rq["limit"] = rng.choice([1, 2, 3, 5, 10, 1000])
-        rq["offset"] = rng.choice([0, 0, 1, 2, 5])
+        rq["offset"] = rng.choice([0, 0, 1, 2, 5, 9])
     else:
-        rq["offset"] = rng.choice([1, 3])
+        rq["offset"] = rng.choice([1, 3, 8])
     return rq
 
 
@@ -689,6 +712,26 @@ def keyseq(rows, field):
     return out
 
 
+def ties_only(rr, vr, keys, head_cut, tail_cut):
+    """rr and vr carry the same sort-key sequence `keys`; do they differ only inside runs of equal keys?  Inside a run the
+    two responses must hold the same rows (any order) – except the first run when an offset may have cut into it and the
+    last run when a limit / top-N bound may have cut into it (there the tied row that was kept may differ)."""
+    runs, i = [], 0
+    while i < len(keys):
+        j = i
+        while j + 1 < len(keys) and keys[j + 1] == keys[i]:
+            j += 1
+        runs.append((i, j + 1))
+        i = j + 1
+    for n, (a, b) in enumerate(runs):
+        if sorted(rr[a:b]) == sorted(vr[a:b]):
+            continue
+        if (n == 0 and head_cut) or (n == len(runs) - 1 and tail_cut):
+            continue
+        return False
+    return True
+
+
 def close_enough(a, b):
     """two aggregate values that may only differ by float accumulation order"""
     if a == b:
@@ -738,9 +781,10 @@ def classify_divergence(ds, rq, row, vec, distributed):
     # ---- contract-respecting requests
     if F["gb_multi_family"] and vs == "ERR" and "GroupBy.tag_projection_v1_supports" in vec:
         return ("known", "F15d", "group_by over more than one tag family: vectorized analyzer rejects, row path answers")
-    if F["gb_entity"] and F["ob_rule"] and ((rs == "ERR" and "unsupported_order_by_type" in row and vs == "OK") or
-                                            (distributed and vs == "ERR" and "unsupported_order_by_type" in vec and rs == "OK")):
-        return ("known", "F15e", "group_by == entity with an index-rule order_by: the pipeline that asks storage for series order is refused, the other answers")
+    if distributed and F["gb_entity"] and F["ob_rule"] and vs == "ERR" and "unsupported_order_by_type" in vec and rs == "OK":
+        # standalone both pipelines refuse this shape (since the F15b fix); only the distributed row plan, which does not
+        # push the group_by to the data nodes, still answers
+        return ("known", "F15e", "distributed group_by == entity with an index-rule order_by: vectorized data nodes ask storage for series order and are refused, the row liaison answers")
     if distributed:
         if rs == "ERR" and F["ob_tag"] and F["ob_tag"] not in F["tp_tags"] and ("tag_%s_not_found" % F["ob_tag"]) in row and vs == "OK":
             return ("known", "F15h", "row liaison needs the order_by tag in the tag projection, vectorized liaison does not")
@@ -759,7 +803,7 @@ def classify_divergence(ds, rq, row, vec, distributed):
                     vm.remove(r)
                 else:
                     ok = False
-            if ok or F["gb_entity"] or F["has_top"] or F["offset"] or distributed:
+            if ok or F["has_top"] or F["offset"] or distributed:
                 return ("known", "F15c", "aggregation input holds a NULL field value: row accumulator fails silently and the row response is truncated")
     if rs != "OK" or vs != "OK":
         return V("one pipeline rejects what the other answers")
@@ -773,10 +817,6 @@ def classify_divergence(ds, rq, row, vec, distributed):
     if distributed and ds.get("indexMode") and not F["has_agg"] and not F["has_gb"] and not F["has_top"] and len(rr) == len(vr) and \
             (sorted(rr) == sorted(vr) or F["offset"] > 0 or len(rr) >= F["limit"]):
         return ("known", "F15n", "index-mode measure: row liaison keeps the node's index order, vectorized liaison sorts by time")
-    if F["has_gb"] and F["gb_tags"] and F["null_and_zero_key"]():
-        return ("known", "F15s", "vectorized group key ignores the validity bitmap: a NULL int key and the key 0 fall into one group")
-    if F["has_gb"] and F["gb_tags"] and F["row_key_collision"]():
-        return ("known", "F15f", "row path hashes the unseparated concatenation of the group key values: distinct key tuples of this dataset collide")
     if F["has_top"]:
         f = rq["top"]["field"]
         def is_nan(k):
@@ -787,38 +827,25 @@ def classify_divergence(ds, rq, row, vec, distributed):
         if any(is_nan(k) for k in keyseq(rr, f) + keyseq(vr, f)):
             return ("known", "F15t", "top-N over NaN: both heaps use <, > on float64; NaN placement depends on insertion order")
         if len(rr) == len(vr) and keyseq(rr, f) == keyseq(vr, f):
-            return ("known", "F15a", "top-N over equal sort values: different tie order / different tied row kept")
+            n = rq["top"]["n"]
+            # a top-N of exactly n rows may have dropped a tied row; limit/offset after it cut at either end
+            head_cut = F["offset"] > 0
+            tail_cut = len(rr) + F["offset"] >= n or len(rr) >= F["limit"]
+            if ties_only(rr, vr, keyseq(rr, f), head_cut, tail_cut):
+                return ("known", "F15a", "top-N over equal sort values: different tie order / different tied row kept")
         if not F["has_agg"] and F["field_has_null"](f):
             return ("known", "F15c2", "top-N over a field with NULL values: row path reads NULL as 0, vectorized path as lowest")
-    if F["gb_entity"] and not F["has_top"]:
-        truncated = F["offset"] > 0 or max(len(rr), len(vr)) >= F["limit"]
-        if truncated:
-            return ("known", "F15b", "group_by == entity: row path scans in series order, vectorized in time order; limit/offset window differs")
-        if F["has_agg"]:
-            def core(rows):     # key tags + aggregate; the other projected tags come from the first row each scan order meets
-                return sorted((tuple(parse_row(r)["tags"].get(t, "?") for t in F["gb_tags"]), tuple(sorted(parse_row(r)["fields"].items()))) for r in rows)
-            if core(rr) == core(vr):
-                return ("known", "F15b", "group_by == entity: group order / representative tags differ (series order vs first seen)")
-            cr, cv = core(rr), core(vr)
-            if F["ftype"].get(rq["agg"]["field"]) == "f" and rq["agg"]["fn"] in ("SUM", "MEAN") and len(cr) == len(cv) and \
-                    all(a[0] == b[0] and len(a[1]) == len(b[1]) and all(x[0] == y[0] and close_enough(x[1], y[1]) for x, y in zip(a[1], b[1]))
-                        for a, b in zip(cr, cv)):
-                return ("known", "F15b", "group_by == entity: float SUM/MEAN accumulated in series order vs time order (last-bit difference)")
-            return V("group_by == entity: aggregated groups differ as multisets")
-        kr = sorted(tuple(parse_row(r)["tags"].get(t, "?") for t in F["gb_tags"]) for r in rr)
-        kv = sorted(tuple(parse_row(r)["tags"].get(t, "?") for t in F["gb_tags"]) for r in vr)
-        if kr == kv:
-            return ("known", "F15b", "group_by == entity without aggregation: representative row / group order differs")
-        return V("group_by == entity: group keys differ")
     if distributed and len(rr) == len(vr):
         if not F["has_agg"] and not F["has_gb"]:
+            head_cut, tail_cut = F["offset"] > 0, len(rr) >= F["limit"]
             if F["ob_tag"] is None:
-                if [parse_row(r)["t"] for r in rr] == [parse_row(r)["t"] for r in vr]:
+                ks = [parse_row(r)["t"] for r in rr]
+                if ks == [parse_row(r)["t"] for r in vr] and ties_only(rr, vr, ks, head_cut, tail_cut):
                     return ("known", "F15g", "distributed merge: rows with equal timestamps from different series/nodes come in a different order")
             else:
                 kr = [parse_row(r)["tags"].get(F["ob_tag"]) for r in rr]
                 kv = [parse_row(r)["tags"].get(F["ob_tag"]) for r in vr]
-                if F["ob_tag"] not in F["tp_tags"] or kr == kv:
+                if kr == kv and ties_only(rr, vr, kr, head_cut, tail_cut):
                     return ("known", "F15g", "distributed merge: rows with equal sort-tag values come in a different order")
                 if ("N" in kr + kv or "S-" in kr + kv) and (sorted(rr) == sorted(vr) or F["offset"] > 0 or len(rr) >= F["limit"]):
                     return ("known", "F15g", "distributed merge: rows whose sort tag is NULL/empty are placed differently")
@@ -1224,8 +1251,8 @@ def smerge_oracle(line, g):
 # ------------------------------------------------------------------------------------------------
 # the check
 
-KNOWN_IDS = ["F15a", "F15b", "F15c", "F15c2", "F15d", "F15e", "F15f", "F15g", "F15h", "F15i", "F15j", "F15m", "F15n",
-             "F15p1", "F15p2", "F15p3", "F15p4", "F15p6", "F15q", "F15r", "F15s", "F15t", "F15z"]
+KNOWN_IDS = ["F15a", "F15c", "F15c2", "F15d", "F15e", "F15g", "F15h", "F15i", "F15j", "F15m", "F15n",
+             "F15p1", "F15p2", "F15p3", "F15p4", "F15p6", "F15q", "F15r", "F15t", "F15z"]
 
 
 class C15(vlib.Spec):
@@ -1481,7 +1508,17 @@ def main(tier):
     except vlib.BuildError as e:
         R.oblige("build", False, str(e)[-3000:])
     checker = "cd /verif/lean && lake build %s && lake env lean ../.build/audit/Audit_C15.lean  (# print axioms)" % " ".join(spec.lean_modules)
-    return R.finish(spec.trusted_base, checker, spec.rule, extra)
+    # verdict lines: VIOLATION first (consumers that look at the head of the output must see them before the long
+    # list of KNOWN-FINDING lines this property has)
+    import io
+    import contextlib
+    buf = io.StringIO()
+    with contextlib.redirect_stdout(buf):
+        rc = R.finish(spec.trusted_base, checker, spec.rule, extra)
+    lines = buf.getvalue().split("\n")
+    for l in [x for x in lines if x.startswith("VIOLATION")] + [x for x in lines if x and not x.startswith("VIOLATION")]:
+        print(l)
+    return rc
 
 
 def replay(path):
